@@ -110,6 +110,21 @@ Proof.
 Qed.
 Print Assumptions C20_verdict_negative.
 
+(* The loader wired to the telemetry as in a run: the verdict is success iff the upkeeps put on
+   chain reach the count computed for the plan, and, when that count is zero, iff no Load carried
+   a transmit at all. *)
+Theorem C20_wired_verdict :
+  forall ups logs loads, Forall (fun k => 0 <= k) loads ->
+    wired_verdict ups logs loads = verdict_spec [(expected_spec ups logs, loads)].
+Proof. exact wired_verdict_spec. Qed.
+Print Assumptions C20_wired_verdict.
+
+Theorem C20_wired_checker_sound :
+  forall ups logs loads obs, C20_wired_check ups logs loads obs = true ->
+    obs = verdict_spec [(expected_spec ups logs, loads)].
+Proof. exact C20_wired_check_sound. Qed.
+Print Assumptions C20_wired_checker_sound.
+
 (* A plan is encoded and decoded to itself up to what the codec normalises (type tags, default
    `expected`), and a decoded plan is a fixed point. *)
 Theorem C20_plan_roundtrip :
